@@ -325,10 +325,13 @@ def check_map_construction(entries):
         live = DeviceInstanceTypeMapper(initial={(s9, i9): t9, (63 - s9, 31 - i9): 2})
         for step, new_t in enumerate([(t9 + 5) % 32, None, (t9 + 9) % 32]):
             before_q = live.get_type(short_address=s9, instance_number=i9)
-            if new_t is None:
-                live.mapping.pop((s9, i9), None)
-            else:
-                live.mapping[(s9, i9)] = new_t
+            try:
+                if new_t is None:
+                    live.mapping.pop((s9, i9), None)
+                else:
+                    live.mapping[(s9, i9)] = new_t
+            except (TypeError, AttributeError):
+                break          # .mapping is a read-only view in this version: nothing to edit through it
             q = live.get_type(short_address=s9, instance_number=i9)
             if q != live.mapping.get((s9, i9)) or q != new_t:
                 out.append(("C12:get_type-disagrees-with-mapping", "after .mapping[(%d,%d)] was set to %r (lookup just before: %r) "
